@@ -1,6 +1,9 @@
 use anyhow::{anyhow, Result};
+#[cfg(all(kani, feature = "verif-hooks"))]
+use crate::verif_hooks::VecMap as HashMap;
+#[cfg(not(all(kani, feature = "verif-hooks")))]
+use std::collections::HashMap;
 use std::{
-    collections::HashMap,
     fmt::{Debug, Display},
     hash::Hash,
 };
